@@ -78,6 +78,8 @@ class Builder:
             return getattr(self.term(t[1]), t[2])(*[self.inst.v(a) for a in t[3]])
         if k == "l":
             return self.inst.v(t[1])
+        if k == "ck":
+            return getattr(self.term(t[1]), t[2])(*[self.inst.v(a) for a in t[3]], **{n: self.inst.v(a) for n, a in t[4]})
         if k in ("fl", "cc"):
             # e = flatten(...) / concatenate(...) is written once and reused: one node per distinct AST term
             if t not in self.memo:
@@ -199,6 +201,9 @@ class Ref:
             return getattr(self.value(t[1], env), t[2])(*[self.inst.v(a) for a in t[3]])
         if k == "l":
             return self.inst.v(t[1])
+        if k == "ck":
+            return getattr(self.value(t[1], env), t[2])(*[self.inst.v(a) for a in t[3]],
+                                                        **{n: self.inst.v(a) for n, a in t[4]})
         if k == "fl":
             return env[t]           # bound by solutions(): one binding per inner element
         if k == "new":
@@ -329,6 +334,9 @@ def up_term(t, inst):
         return f"{up_term(t[1], inst)}.{t[2]}({', '.join(repr(inst.v(a)) for a in t[3])})"
     if k == "l":
         return repr(inst.v(t[1]))
+    if k == "ck":
+        args = [repr(inst.v(a)) for a in t[3]] + [f"{n}={inst.v(a)!r}" for n, a in t[4]]
+        return f"{up_term(t[1], inst)}.{t[2]}({', '.join(args)})"
     if k == "fl":
         return f"flatten({up_term(t[1], inst)})"
     if k == "cc":
